@@ -205,6 +205,9 @@ func c08Kinds() []c08Kind {
 		c08Beh{name: "lh-behind", client: "Lighthouse", errText: "POST failed with status 400: UnknownHeadBlock 0x1234", tolerated: true},
 		c08Beh{name: "nimbus-target", client: "Nimbus", errText: "POST failed with status 400: Attempt to send attestation for unknown target", tolerated: true},
 		c08Beh{name: "teku-known", client: "teku", errText: "POST failed with status 400: PriorAttestationKnown"},
+		// the texts tolerated from one client are plain rejections from another
+		c08Beh{name: "teku-target", client: "teku", errText: "POST failed with status 400: Attempt to send attestation for unknown target"},
+		c08Beh{name: "nimbus-behind", client: "Nimbus", errText: "POST failed with status 400: UnknownHeadBlock 0x1234"},
 	)
 	msgs := append(append([]c08Beh{}, c08Basic...),
 		c08Beh{name: "lh-alldup", client: "Lighthouse", errText: lhPrefix + lhDupMsg, tolerated: true},
